@@ -46,10 +46,11 @@ UNITS2 = {
                  'list_iterator_remove', 'list_contains', 'list_remove', 'list_insert_sorted'], 3,
                 {'inmem': ['list_node', 'list_node_t', 'list_t', 'list_iterator_t'], 'recursive_loops': True, 'pure_calls': ['nodecmp']}),
     # fibre.c: the comparator the scheduler hands to list_insert_sorted for its timer queue (fibre_t in memory)
-    'FibreSeq': (os.path.join(vlib.VERIF, 'harness/wrap_fibre.c'), ['duetime_cmp', 'get_next_wakeup', 'get_next_task', 'make_runnable', 'fibre_timeout', 'fibre_run_atomic'], 1,
+    'FibreSeq': (os.path.join(vlib.VERIF, 'harness/wrap_fibre.c'), ['duetime_cmp', 'get_next_wakeup', 'get_next_task', 'make_runnable', 'fibre_timeout', 'fibre_run_atomic', 'fibre_scheduler_next'], 1,
                  {'inmem': ['fibre', 'fibre_t', 'list_node', 'list_node_t', 'list_t', 'messageq_t'], 'flags': ['-I' + vlib.REPO],
-                  'externs': ['messageq_empty', 'messageq_claim', 'messageq_send', 'list_extract', 'list_contains', 'list_remove', 'list_insert', 'list_insert_sorted'],
-                  'optional': ['get_next_wakeup', 'get_next_task', 'make_runnable', 'fibre_timeout', 'fibre_run_atomic']}),     # only C03 / C01 state theorems about these
+                  'externs': ['messageq_empty', 'messageq_claim', 'messageq_send', 'list_extract', 'list_contains', 'list_remove', 'list_insert', 'list_insert_sorted',
+                              'handle_atomic_runq', 'update_current_state', 'handle_timerq', 'get_next_task', 'get_next_wakeup', 'indirect_call'],
+                  'optional': ['get_next_wakeup', 'get_next_task', 'make_runnable', 'fibre_timeout', 'fibre_run_atomic', 'fibre_scheduler_next']}),     # only C03 / C01 state theorems about these
     # one iteration of the POSIX main loop; the clock, the scheduling pass and the sleep are the environment
     'MainLoopSeq': (os.path.join(vlib.VERIF, 'harness/wrap_mainloop.c'), ['fibre_scheduler_main_loop'], 1,
                     {'externs': ['time_now', 'fibre_scheduler_next', 'usleep'], 'flags': ['-I' + vlib.REPO]}),
